@@ -806,10 +806,12 @@ func (c *Conn) runWriteLoop() (lastErr error) {
 		case ctx := <-c.in: // sending requests
 			verifTick(verifTickCliInTaken)
 
+			// writeRequest answers the Ctx itself when it fails, while it still holds
+			// it: once it has let go, the caller may have taken the Ctx back and put
+			// it in the pool, and it can be carrying the next request by now.
 			err := c.writeRequest(ctx)
 			if err != nil {
 				verifTick(verifTickCliReqFailed)
-				ctx.resolve(err)
 
 				if errors.Is(err, ErrNotAvailableStreams) {
 					continue
@@ -1063,8 +1065,11 @@ func (c *Conn) goneAway() bool {
 	return c.state == connStateClosed && c.noReqs()
 }
 
-func (c *Conn) writeRequest(ctx *Ctx) error {
+func (c *Conn) writeRequest(ctx *Ctx) (err error) {
 	if !c.CanOpenStream() {
+		// Not on any table yet, so nobody else can have finished it.
+		ctx.resolve(ErrNotAvailableStreams)
+
 		return ErrNotAvailableStreams
 	}
 
@@ -1086,7 +1091,15 @@ func (c *Conn) writeRequest(ctx *Ctx) error {
 		}
 	}
 
-	defer release()
+	// A failure is answered before the Ctx is let go: takeBack waits for the
+	// lock, so the answer cannot land on a Ctx that has gone back to the pool.
+	defer func() {
+		if err != nil && !released {
+			ctx.resolve(err)
+		}
+
+		release()
+	}()
 
 	req := ctx.Request
 
@@ -1216,7 +1229,7 @@ func (c *Conn) writeRequest(ctx *Ctx) error {
 
 	c.bwLck.Lock()
 
-	_, err := fr.WriteTo(c.bw)
+	_, err = fr.WriteTo(c.bw)
 	if err == nil {
 		err = c.bw.Flush()
 	}
@@ -1231,6 +1244,8 @@ func (c *Conn) writeRequest(ctx *Ctx) error {
 		if c.takeReq(id) {
 			atomic.AddInt32(&c.openStreams, -1)
 		}
+
+		ctx.resolve(err)
 
 		// deletePending takes the Ctx to close a streamed body, and the lock
 		// is not reentrant.
@@ -1460,6 +1475,10 @@ func (c *Conn) sendPending(id uint32) error {
 		// may hand the Request back, as soon as the Ctx is let go.
 		if err == nil && end {
 			c.closeBodyStream(pb)
+		}
+
+		if err != nil {
+			pb.ctx.resolve(err)
 		}
 
 		pb.ctx.release()
